@@ -100,7 +100,7 @@ ObsOf(S, a, r) ==
    ackSeq |-> IF isPub THEN r.out.seq ELSE 0,
    ackDel |-> IF a.a = "DelMsg" /\ r.out.code = 200 THEN r.out.seq ELSE 0,
    delmeta |-> {},
-   afterCrash |-> FALSE,
+   afterCrash |-> FALSE, suspended |-> {},
    acs |-> {},
    sysPre |-> 0, sysPost |-> 0, info |-> {}, infoPredicted |-> FALSE,
    pushChan |-> IF isPub THEN {[channel |-> IF S.cache[a.t].ischan THEN a.t ELSE "", ischn |-> S.cache[a.t].ischan]} ELSE {},
